@@ -35,3 +35,56 @@ for _fn, (_shapes, _spec, _canary) in STEP_SPECS.items():
               canaries={'value': f'res == {_canary}'},
               props=('C04', 'C08', 'C09', 'C10'),
               numeric=dict(shapes=_shapes))
+
+
+# ---- block sparsity of the environment blocks and of the local maps (support VCs, engine T + z3) -------------------------
+# hypothesis: A, B site tensors sparse under (qd, qa0, -qa1) resp. (qd, qb0, -qb1); W under (qd, -qd, qw0, -qw1);
+# incoming block sparse under (qa1, qw1, -qb1) [right] resp. (qa0, qw0, -qb0) [left]
+from ..libt import qv, support_holds, as_tensor
+
+def _sup_env():
+    qd = qv('qd', 'd'); qe = qv('qd', 'e')
+    qa0, qa1 = qv('qa0', 'Da0'), qv('qa1', 'Da1'); qb0, qb1 = qv('qb0', 'Db0'), qv('qb1', 'Db1'); qw0, qw1 = qv('qw0', 'Dw0'), qv('qw1', 'Dw1')
+    sup = {'A': [[(qd, 0), (qa0, 1), (-qa1, 2)]], 'B': [[(qe, 0), (qb0, 1), (-qb1, 2)]], 'W': [[(qe, 0), (-qd, 1), (qw0, 2), (-qw1, 3)]],
+           'R': [[(qa1, 0), (qw1, 1), (-qb1, 2)]], 'L': [[(qa0, 0), (qw0, 1), (-qb0, 2)]]}
+    return dict(qd=qd, qe=qe, qa0=qa0, qa1=qa1, qb0=qb0, qb1=qb1, qw0=qw0, qw1=qw1), sup
+
+class _support_clause:
+    def __init__(self, qs):
+        self.qs = qs
+    def __call__(self, env, res, rules, st):
+        q = env['#q']
+        return support_holds(as_tensor(res), [eval(x, dict(q)) for x in self.qs], st.env.get('#support', {}))
+
+def _args_sup(shapes, which):
+    def f():
+        q, sup = _sup_env()
+        env = {k: inp(k, v) for k, v in shapes.items()}
+        env['#support'] = {k: v for k, v in sup.items() if k in shapes}
+        env['#q'] = q
+        return env
+    return f
+
+TContract(fn='operation.contraction_operator_step_right',
+          args=_args_sup(dict(A=('d', 'Da0', 'Da1'), B=('e', 'Db0', 'Db1'), W=('e', 'd', 'Dw0', 'Dw1'), R=('Da1', 'Dw1', 'Db1')), 'R'),
+          ensures={'block_sparsity_preserved': _support_clause(['qa0', 'qw0', '-qb0'])},
+          canaries={'block_sparsity_preserved': _support_clause(['qa0', '-qw0', '-qb0'])},
+          props=('C02', 'C04', 'C08', 'C10'))
+TContract(fn='operation.contraction_operator_step_left',
+          args=_args_sup(dict(A=('d', 'Da0', 'Da1'), B=('e', 'Db0', 'Db1'), W=('e', 'd', 'Dw0', 'Dw1'), L=('Da0', 'Dw0', 'Db0')), 'L'),
+          ensures={'block_sparsity_preserved': _support_clause(['qa1', 'qw1', '-qb1'])},
+          canaries={'block_sparsity_preserved': _support_clause(['qa1', 'qw1', 'qb1'])},
+          props=('C02', 'C04', 'C08', 'C10'))
+
+def _args_alh():
+    q, sup = _sup_env()
+    # apply_local_hamiltonian(L, R, W, A): here A is the ket-side tensor (d, Da0, Da1); result lives on the bra side (e, Db0, Db1)
+    env = {'L': inp('L', ('Da0', 'Dw0', 'Db0')), 'R': inp('R', ('Da1', 'Dw1', 'Db1')), 'W': inp('W', ('e', 'd', 'Dw0', 'Dw1')), 'A': inp('A', ('d', 'Da0', 'Da1'))}
+    env['#support'] = {k: sup[k] for k in ('L', 'R', 'W', 'A')}
+    env['#q'] = q
+    return env
+
+TContract(fn='operation.apply_local_hamiltonian', args=_args_alh,
+          ensures={'maps_sector_to_sector': _support_clause(['qe', 'qb0', '-qb1'])},
+          canaries={'maps_sector_to_sector': _support_clause(['qe', 'qb1', '-qb0'])},
+          props=('C02', 'C04', 'C08', 'C10'))
